@@ -502,22 +502,34 @@ def registered_in_fresh_process():
     return [x for x in p.stdout.strip().split(',') if x]
 
 
+_DIGEST_CODE = r'''
+import sys, json, importlib
+sys.path.insert(0, sys.argv[1])
+eng = importlib.import_module('xlcalculator.xlfunctions.engineering')
+names = {bin: 'bin', oct: 'oct', hex: 'hex', eng.dec: 'dec'}
+order = ['bin', 'oct', 'dec', 'hex']
+by = lambda d: sorted(((names[k], v) for k, v in d.items()), key=lambda r: order.index(r[0]))
+digits = ','.join(f'{k}:' + ''.join(sorted(v)) for k, v in by(eng.PERMITTED_DIGITS))
+widths = ','.join(f'{k}:{v}' for k, v in by(eng.BIT_WIDTHS))
+bases = ','.join(f'{k}:{v}' for k, v in by(eng.BASE_NUMBERS))
+rows = []
+for fs, v in eng.BOUNDS.items():
+    ks = sorted((names[k] for k in fs), key=order.index)
+    ks = ks * 2 if len(ks) == 1 else ks
+    rows.append((order.index(ks[0]), order.index(ks[1]), f'{ks[0]}+{ks[1]}:{v}'))
+bounds = ','.join(r[2] for r in sorted(rows))
+print(json.dumps({'digits': digits, 'widths': widths, 'bases': bases, 'bounds': bounds}))
+'''
+
+
 def tables_digest_of_module():
-    import importlib
-    eng = importlib.import_module('xlcalculator.xlfunctions.engineering')
-    names = {bin: 'bin', oct: 'oct', hex: 'hex', eng.dec: 'dec'}
-    order = ['bin', 'oct', 'dec', 'hex']
-    by = lambda d: sorted(((names[k], v) for k, v in d.items()), key=lambda r: order.index(r[0]))  # noqa: E731
-    digits = ','.join(f'{k}:' + ''.join(sorted(v)) for k, v in by(eng.PERMITTED_DIGITS))
-    widths = ','.join(f'{k}:{v}' for k, v in by(eng.BIT_WIDTHS))
-    bases = ','.join(f'{k}:{v}' for k, v in by(eng.BASE_NUMBERS))
-    rows = []
-    for fs, v in eng.BOUNDS.items():
-        ks = sorted((names[k] for k in fs), key=order.index)
-        ks = ks * 2 if len(ks) == 1 else ks
-        rows.append((order.index(ks[0]), order.index(ks[1]), f'{ks[0]}+{ks[1]}:{v}'))
-    bounds = ','.join(r[2] for r in sorted(rows))
-    return {'digits': digits, 'widths': widths, 'bases': bases, 'bounds': bounds}
+    """Digest of the tables of the running engineering module, computed in a separate interpreter (this
+    process must not import the module itself: defect D49 is about the package not doing so)."""
+    p = subprocess.run([sys.executable, '-c', _DIGEST_CODE, str(common.REPO)], stdout=subprocess.PIPE,
+                       stderr=subprocess.PIPE, text=True, timeout=300)
+    if p.returncode != 0:
+        raise ValueError(p.stderr[-600:])
+    return json.loads(p.stdout)
 
 
 # ---------------------------------------------------------------- run
